@@ -18,6 +18,7 @@ pub mod c16;
 pub mod c23;
 pub mod c24;
 pub mod c25;
+pub mod c26;
 pub mod c28;
 pub mod c29;
 pub mod exh;
@@ -41,6 +42,7 @@ pub fn all() -> Vec<Prop> {
         c23::prop(),
         c24::prop(),
         c25::prop(),
+        c26::prop(),
         c28::prop(),
         c29::prop(),
     ]
